@@ -261,10 +261,14 @@ class LocalFileStore(Store):
             if os.path.exists(loc) and os.path.realpath(loc) == loc_blob:
                 _logger.debug(f"Link {loc} up to date")
             else:
-                if os.path.exists(loc):
-                    os.remove(loc)
                 _logger.info(f"Link {loc} -> {loc_blob}")
-                os.symlink(loc_blob, loc)
+                # The new link is created under a temporary name and then moved over the previous one
+                # (which may be dangling): the path always resolves to its old or to its new content.
+                tmp_loc = _temp_name(loc)
+                if os.path.lexists(tmp_loc):
+                    os.remove(tmp_loc)
+                os.symlink(loc_blob, tmp_loc)
+                os.replace(tmp_loc, loc)
 
     def fetch_paths(self, paths: List[DDSPath]) -> "OrderedDict[DDSPath, PyHash]":
         res = OrderedDict()
